@@ -71,7 +71,7 @@ def assigned_names(stmts):
 
 class Interp(ExprMixin):
     def __init__(self, repo, inline=(), types=None, facts=None, max_paths=256, max_depth=4,
-                 symbolic_globals=False, inline_ctor=()):
+                 symbolic_globals=False, inline_ctor=(), unroll=False):
         self.repo = repo
         self.inline_set = set(inline)
         self.inline_ctor = set(inline_ctor)
@@ -84,6 +84,7 @@ class Interp(ExprMixin):
         self.cur = None
         self.loop_depth = 0
         self.pending_out = None
+        self.unroll = unroll
 
     # ------------------------------------------------------------------ public
     def run(self, func, args=None, config=None):
@@ -667,6 +668,18 @@ class Interp(ExprMixin):
 
     def s_For(self, s, st):
         it = self.eval(s.iter, st)
+        if isinstance(it, Tup) and len(it) <= 6 and self.unroll and not s.orelse:
+            # a list whose items are all known: iterate concretely
+            states, done = [st], []
+            for item in it.items:
+                nxt = []
+                for cur in states:
+                    self.assign(s.target, item, cur, s)
+                    c, d = self.exec_block(s.body, [cur])
+                    nxt += c
+                    done += d
+                states = nxt
+            return states, done
         return self._loop(s, st, it)
 
     def s_While(self, s, st):
